@@ -55,6 +55,30 @@ func nilUseWitness(n *node) int {
 	return 0
 }
 
+// nilNilWitness: the refusal returns the error of an earlier, successful step (C19.R).
+func nilNilWitness(a, b func() error) (*node, error) {
+	err := a()
+	if err != nil {
+		return nil, err
+	}
+	if e2 := b(); e2 != nil {
+		return nil, err
+	}
+	return &node{}, nil
+}
+
+// nilNilOK: must stay silent.
+func nilNilOK(a, b func() error) (*node, error) {
+	err := a()
+	if err != nil {
+		return nil, err
+	}
+	if e2 := b(); e2 != nil {
+		return nil, e2
+	}
+	return &node{}, nil
+}
+
 // sepWitness: separator by loop index although elements are written conditionally (C14.J1).
 func sepWitness(keys []string, out *sink) {
 	for i, k := range keys {
